@@ -86,16 +86,22 @@ def build_xyz(ctx, natom=2, variant="default"):
             q[p] = ctx.real(f"q{p}", lo=-9, hi=9, default=0.25)
             for k in range(3):
                 g[p, k] = ctx.real(f"g{p}_{k}", lo=-90, hi=90, default=0.1 * k)
-        kw["atcharges"] = {"mulliken": q}
+        # two columns that live in the same dictionary attribute (two charge kinds), one array attribute with a sign change
+        q2 = np.zeros(natom, dtype=object if ctx.mode == "sym" else float)
+        for p in probes:
+            q2[p] = ctx.real(f"h{p}", lo=-9, hi=9, default=-0.125)
+        kw["atcharges"] = {"mulliken": q, "hirshfeld": q2}
         kw["atgradient"] = g
         cols = X.DEFAULT_ATOM_COLUMNS + [
             ("atcharges", "mulliken", (), float, (lambda word: _f(X, word)), "{:10.5f}".format),
             ("atgradient", None, (3,), float, (lambda word: -_f(X, word)), (lambda value: "{:15.10f}".format(-value))),
+            ("atcharges", "hirshfeld", (), float, (lambda word: _f(X, word)), "{:10.5f}".format),
         ]
         dkw = dict(atom_columns=cols)
         exp["atcharges.mulliken"] = q
+        exp["atcharges.hirshfeld"] = q2
         exp["atgradient"] = g
-    tol = dict(atcoords=0.51e-10 * ANG, atgradient=0.51e-10, **{"atcharges.mulliken": 0.51e-5})
+    tol = dict(atcoords=0.51e-10 * ANG, atgradient=0.51e-10, **{"atcharges.mulliken": 0.51e-5, "atcharges.hirshfeld": 0.51e-5})
     return kw, dkw, dict(dkw), exp, tol
 
 
